@@ -9,7 +9,7 @@ RULE = ("programs generated from the full header/body model (lets of any sign/ma
         "distinct = distinct program S-expression + route; non-trivial = has at least one body statement or macro")
 ASSUMPTIONS = ["reference meaning (vf/meaning.py) reads IR objects through public attributes only",
                "autoload_pulses=False: pulse imports are kept as statements, not loaded"]
-TIERS = {"quick": {"shards": 8, "budget_s": 90}, "thorough": {"shards": 16, "budget_s": 300}}
+TIERS = {"quick": {"shards": 8, "budget_s": 180}, "thorough": {"shards": 16, "budget_s": 300}}
 REQUIRE = {"route:keyword-calls": 2000, "shards-whose-first-program-writes-integral-floats": 2, "derived-circuits-judged": 300, "route:builder": 500, "route:text": 50, "route:build": 50, "route:build-lists": 50, "lit:float-exp": 5, "node:subcircuit_block": 20, "map:6": 20, "node:macro": 20}
 
 
